@@ -433,7 +433,9 @@ def _execute(trace, res, solver, fs):
                 if flagged and not faulted:
                     res.violate("C13", "C13/feasible-step-reported-failed@cod=%s" % run["cod"], "step %d" % t, pos)
                 if not flagged and not (aborted_here and raised is not None):
-                    diffs = _compare_logged(out, twin, t, trace["logs"])
+                    # (a step hit by a solver fault that recovers - the thermal solve skips a NaN update - converges along
+                    # another Newton path: the same solution within the tolerances, not bit for bit)
+                    diffs = _compare_logged(out, twin, t, trace["logs"], exact=not faulted)
                     for d in diffs:
                         res.violate("C13", "C13/step-not-equal-twin:%s%s" % (d, ("@after-fault:%s" % kw.get("mode", "hydraulics")) if faulted else ""), "step %d" % t, pos)
                     res.oracle_checks += 1
@@ -493,7 +495,7 @@ def _execute(trace, res, solver, fs):
     res.log.add("end")
 
 
-def _compare_logged(out, twin, t, logs):
+def _compare_logged(out, twin, t, logs, exact=True):
     diffs = []
     for tbl, var in logs:
         key = "%s.%s" % (tbl, var)
@@ -507,7 +509,11 @@ def _compare_logged(out, twin, t, logs):
             continue
         got = row.loc[t].values.astype(np.float64)
         want = twin[tbl][var].values.astype(np.float64)
-        if len(got) != len(want) or not np.array_equal(got, want, equal_nan=True):
+        if len(got) != len(want):
+            diffs.append(key)
+        elif exact and not np.array_equal(got, want, equal_nan=True):
+            diffs.append(key)
+        elif not exact and not np.allclose(got, want, rtol=1e-3, atol=1e-4, equal_nan=True):
             diffs.append(key)
     return diffs
 
